@@ -34,7 +34,58 @@ def interpret_hash(alg, data):
         return hashlib.sha512(data).digest()
     if alg == 'SHA3':
         return hashlib.sha3_256(data).digest()
+    if alg == 'KECCAK':
+        return keccak256(data)
     raise Unsup('hash ' + alg)
+
+
+_RC = [0x0000000000000001, 0x0000000000008082, 0x800000000000808A, 0x8000000080008000, 0x000000000000808B, 0x0000000080000001, 0x8000000080008081, 0x8000000000008009,
+       0x000000000000008A, 0x0000000000000088, 0x0000000080008009, 0x000000008000000A, 0x000000008000808B, 0x800000000000008B, 0x8000000000008089, 0x8000000000008003,
+       0x8000000000008002, 0x8000000000000080, 0x000000000000800A, 0x800000008000000A, 0x8000000080008081, 0x8000000000008080, 0x0000000080000001, 0x8000000080008008]
+_ROT = [[0, 36, 3, 41, 18], [1, 44, 10, 45, 2], [62, 6, 43, 15, 61], [28, 55, 25, 21, 56], [27, 20, 39, 8, 14]]
+_M64 = (1 << 64) - 1
+
+
+def _keccak_f(a):
+    rol = lambda x, n: ((x << n) | (x >> (64 - n))) & _M64 if n else x
+    for rc in _RC:
+        c = [a[x][0] ^ a[x][1] ^ a[x][2] ^ a[x][3] ^ a[x][4] for x in range(5)]
+        d = [c[(x - 1) % 5] ^ rol(c[(x + 1) % 5], 1) for x in range(5)]
+        a = [[a[x][y] ^ d[x] for y in range(5)] for x in range(5)]
+        b = [[0] * 5 for _ in range(5)]
+        for x in range(5):
+            for y in range(5):
+                b[y][(2 * x + 3 * y) % 5] = rol(a[x][y], _ROT[x][y])
+        a = [[b[x][y] ^ ((~b[(x + 1) % 5][y]) & b[(x + 2) % 5][y]) for y in range(5)] for x in range(5)]
+        a[0][0] ^= rc
+    return a
+
+
+def sponge256(data, suffix):
+    """Keccak[c=512] sponge with 32-byte output; suffix 0x06 = SHA3-256, 0x01 = the original Keccak-256 (Michelson KECCAK).
+    Written from the Keccak reference; the SHA3 instance is compared with hashlib on every import."""
+    rate = 136
+    p = bytearray(data)
+    p.append(suffix)
+    while len(p) % rate:
+        p.append(0)
+    p[-1] |= 0x80
+    a = [[0] * 5 for _ in range(5)]
+    for off in range(0, len(p), rate):
+        for k in range(rate // 8):
+            a[k % 5][k // 5] ^= int.from_bytes(p[off + 8 * k: off + 8 * k + 8], 'little')
+        a = _keccak_f(a)
+    return b''.join(a[k % 5][k // 5].to_bytes(8, 'little') for k in range(4))
+
+
+def keccak256(data):
+    return sponge256(data, 0x01)
+
+
+for _n in (0, 1, 135, 136, 137, 300):
+    assert sponge256(bytes(range(256)) * 2 + b'x' * 50, 0x06) == hashlib.sha3_256(bytes(range(256)) * 2 + b'x' * 50).digest()
+    assert sponge256(b'k' * _n, 0x06) == hashlib.sha3_256(b'k' * _n).digest(), 'own sponge disagrees with hashlib'
+assert keccak256(b'').hex() == 'c5d2460186f7233c927e7db2dcc703c0e500b653ca82273b7bfad8045d85a470'
 
 
 def bytes_of(v):
@@ -226,7 +277,7 @@ def pval(t, v):
 NOARG = {'SWAP', 'RENAME', 'UNIT', 'CAR', 'CDR', 'SOME', 'CONS', 'FAILWITH', 'EXEC', 'APPLY', 'COMPARE', 'EQ', 'NEQ', 'LT', 'GT', 'LE', 'GE',
          'ADD', 'SUB', 'SUB_MUTEZ', 'MUL', 'NEG', 'ABS', 'INT', 'ISNAT', 'EDIV', 'LSL', 'LSR', 'AND', 'OR', 'XOR', 'NOT', 'SIZE', 'CONCAT',
          'SLICE', 'MEM', 'GET_AND_UPDATE', 'NEVER', 'AMOUNT', 'BALANCE', 'SENDER', 'SOURCE', 'SELF_ADDRESS', 'NOW', 'LEVEL',
-         'TOTAL_VOTING_POWER', 'MIN_BLOCK_TIME', 'CHAIN_ID', 'BLAKE2B', 'SHA256', 'SHA512', 'SHA3', 'TICKET', 'READ_TICKET',
+         'TOTAL_VOTING_POWER', 'MIN_BLOCK_TIME', 'CHAIN_ID', 'BLAKE2B', 'SHA256', 'SHA512', 'SHA3', 'KECCAK', 'TICKET', 'READ_TICKET',
          'SPLIT_TICKET', 'JOIN_TICKETS'}
 
 
